@@ -253,8 +253,13 @@ def r01_3(prog: Program, rep: Report, urows, pe):
             n += 1
             fields = set(oracle.DATETIME_FIELDS[cls])
             det = "+".join(sorted(kws))
+            src0 = next(iter(srcs)) if len(srcs) == 1 else None
+            has_time = {"hour", "minute", "second"} & set(copies)
             if mism:
                 rep.violated("R01.3", qual, f.loc, f"reconstruction copies field(s) {mism} from a differently named attribute", detail=det)
+            elif src0 is not None and [k for k, v in kws.items() if k in oracle.DATETIME_FIELDS[cls] and k not in copies and not (T.refname(v) in oracle.UTC_NAMES and not has_time)]:
+                alt = [k for k, v in kws.items() if k in oracle.DATETIME_FIELDS[cls] and k not in copies and not (T.refname(v) in oracle.UTC_NAMES and not has_time)]
+                rep.violated("R01.3", qual, f.loc, f"reconstruction of {cls} takes {alt} from something other than the parsed value's own attribute ({', '.join(T.show(kws[k])[:40] for k in alt)}): the value's offset / fold is not carried over unchanged", detail=det)
             elif len(srcs) != 1:
                 rep.violated("R01.3", qual, f.loc, "reconstruction mixes attribute sources: " + ", ".join(T.show(s)[:40] for s in srcs), detail=det)
             elif pure and set(kws) != fields:
